@@ -33,7 +33,7 @@ def d1(chk, prog):
              "labels; no label/position or one-past/last strict comparison")
     fi = prog.fn(BYGENE)
     problems, n = pdrules.index_kind_problems(prog, fi)
-    chk.floor("slices / comparisons typed in by_gene", n, 5)
+    chk.floor("slices / comparisons typed in by_gene", n, 3)
     seen = set()
     for node, text in problems:
         construct = f"{fi.qn}::{norm(node)[:70]}"
@@ -48,6 +48,81 @@ def d1(chk, prog):
     ok = len(ys) == 3 and labels.count("params.ANTITARGET_NAME") == 2 and "gene" in labels
     chk.decide(ok, "index-kind", "by_gene yields (Antitarget, gap) / (gene, bins) / (Antitarget, tail)", f"{fi.qn}::yield labels", fi.loc(),
                f"expected two Antitarget-labelled yields and one gene-labelled yield, got {labels}")
+
+
+def d1b(chk, prog):
+    """by_gene on literal tables whose index labels are not the positions"""
+    chk.clause("D1b", "by_gene partitions every chromosome into gene spans and Antitarget stretches: literal tables (1-4 bins, 1-2 chromosomes, labels != positions)")
+    fi = prog.fn(BYGENE)
+    tb = Table(chk, "gene-partition", "by_gene on literal tables satisfying the premise (each gene's bins consecutive up to ignored bins)", fi.loc(), fi.qn)
+    ignored = ("-", "Antitarget", ".", "CGH")
+    configs = []
+    for n in (1, 2, 3, 4):
+        for names in itertools.product(["A", "B", "-", "Antitarget"], repeat=n):
+            for cuts in itertools.product([False, True], repeat=n - 1):
+                chroms, c = [], 0
+                for i in range(n):
+                    if i and cuts[i - 1]:
+                        c += 1
+                    chroms.append(f"chr{c + 1}")
+                configs.append((chroms, list(names)))
+    configs += [(["chr1"] * 6, ["-", "A", "Antitarget", "A", ".", "B"]), (["chr1"] * 5 + ["chr2"], ["A", "A", "CGH", "B", "-", "-"]),
+                (["chr1", "chr1", "chr2", "chr2", "chr2", "chr3"], ["-", "-", "A", "-", "A", "Antitarget"])]
+
+    def premise(chroms, names):
+        for g in set(names) - set(ignored):
+            pos = [i for i, x in enumerate(names) if x == g]
+            if len({chroms[i] for i in pos}) != 1:
+                return False
+            if any(names[i] not in ignored + (g,) for i in range(pos[0], pos[-1] + 1)):
+                return False
+        return True
+
+    def oracle(chroms, names):
+        out = []
+        for c in dict.fromkeys(chroms):
+            rows = [i for i, x in enumerate(chroms) if x == c]
+            prev = 0
+            for g in dict.fromkeys(names[i] for i in rows):
+                if g in ignored:
+                    continue
+                pos = [k for k, i in enumerate(rows) if names[i] == g]
+                if prev < pos[0]:
+                    out.append(("Antitarget", rows[prev:pos[0]]))
+                out.append((g, rows[pos[0]:pos[-1] + 1]))
+                prev = pos[-1] + 1
+            if prev < len(rows):
+                out.append(("Antitarget", rows[prev:]))
+        return out
+
+    bad, undecided, ran = [], [], 0
+    label_pool = [7, 3, 11, 2, 5, 13]
+    for chroms, names in configs:
+        if not premise(chroms, names):
+            continue
+        W.reset()
+        n = len(names)
+        rows = [dict(chromosome=chroms[i], start=10 * i, end=10 * i + 10, gene=names[i], log2=Fr(i, 4), rowid=i) for i in range(n)]
+        g = make_ga("CopyNumArray", rows, {"sample_id": "S"}, index="any", exact=True, labels=label_pool[:n])
+        it = Interp(prog)
+        try:
+            out = list(it.run_method(g, "by_gene", []))
+        except Undecided as u:
+            undecided.append(f"{chroms} {names}: {u}")
+            continue
+        except Raised as r:
+            bad.append(dict(chromosomes=chroms, genes=names, raised=str(r)[:100]))
+            continue
+        ran += 1
+        got = [(nm, list(sub.data.cols["rowid"].v)) for nm, sub in out]
+        want = oracle(chroms, names)
+        if got != want:
+            bad.append(dict(chromosomes=chroms, genes=names, index_labels=label_pool[:n], got=got, want=want))
+    if undecided:
+        raise AnalysisError(f"C16-D1b: {len(undecided)} tables undecided, e.g. {undecided[0][:300]}")
+    chk.floor("literal by_gene tables", ran, 500)
+    tb.cell(not bad, dict(tables=ran, counterexamples=bad[:4], n_counterexamples=len(bad)))
+    tb.done("by_gene does not yield each gene's first..last bins and the Antitarget stretches around them, every bin exactly once")
 
 
 def grp_rows(weights):
@@ -247,6 +322,7 @@ def run(chk):
     chk.trust("Python grammar via ast", "pandas: .loc[a:b] closed on labels, .iloc[a:b] half-open on positions; Series.items() yields (label, value)",
               "np.average(x, weights=w) = sum(x w)/sum(w)")
     chk.assume("premise of the property: each gene's bins are consecutive on one chromosome")
+    d1b(chk, prog)
     d1(chk, prog)
     d2(chk, prog)
     d3(chk, prog)
@@ -255,6 +331,8 @@ def run(chk):
 _C = "cnvlib/cnary.py"
 _R = "cnvlib/reports.py"
 MUTANTS = [
+    dict(name="seeded C16c: by_gene skips chromosomes without a named gene", file="cnvlib/cnary.py", old="            # Row positions (not index labels) delimit the half-open slices\n", new="            if all(gene in ignore for gene in subgary._get_gene_map()):\n                continue\n"),
+    dict(name="by_gene forgets the telomere stretch", file="cnvlib/cnary.py", old="            if prev_idx < len(subgary):", new="            if prev_idx < len(subgary) - 1:"),
     dict(name="regress: label slices in by_gene (pre-fix code)", edits=[
         (_C, "                    start_idx = positions[gene_idx[0]]\n                    end_idx = positions[gene_idx[-1]] + 1\n", "                    start_idx = gene_idx[0]\n                    end_idx = gene_idx[-1] + 1\n"),
         (_C, "subgary.data.iloc[prev_idx:start_idx]", "subgary.data.loc[prev_idx:start_idx]"),
